@@ -185,14 +185,16 @@ ALL_SCENARIOS = [Scn('setup', 'fresh', b) for b in BACKENDS] + \
      Scn('setup', 'fresh', 'ninja', 'noninja'), Scn('setup', 'freshn', 'ninja', 'postconf'),
      # every kind of state file meson writes at configure time
      Scn('setup', 'freshr', 'ninja'), Scn('reconfigure', 'r2', 'ninja'), Scn('configure', 'r2', 'ninja'),
-     Scn('wipe', 'r1', 'ninja'), Scn('reconfigure', 'r2', 'ninja', 'postconf')]
+     Scn('reconfigure', 'r2', 'ninja', 'postconf')]
+# (no --wipe on the rich project: the order in which rmtree meets the content-addressed wrapper files follows their
+# names, which hash the scratch path, so the recorded trace would differ from run to run)
 QUICK_SCENARIOS = [Scn('setup', 'freshn', 'ninja'), Scn('wipe', 'n2', 'none'),
                    Scn('reconfigure', 'n2', 'ninja'), Scn('reconfigure', 'e2', 'ninja', 'noninja'),
                    Scn('configure', 'e2', 'none', 'invalid'), Scn('configure', 'n2', 'none'),
-                   Scn('setup', 'freshr', 'ninja'), Scn('reconfigure', 'r2', 'ninja')]
+                   Scn('setup', 'freshr', 'ninja')]
 # scenarios on the rich project are long: the quick tier kills them at every writer kind and every state file
 # effect, and samples the rest sparsely
-SPARSE_IN_QUICK = 20
+SPARSE_IN_QUICK = 30
 
 
 def meson_argv(cmd: str, args: T.List[str], bd: str, backend: str, proj: str = PROJ) -> T.List[str]:
@@ -315,12 +317,23 @@ def write_set(raw: T.Iterable[Raw]) -> T.List[str]:
 
 
 class Interner:
-    """path -> id; the eight state files have fixed ids, the rest are numbered from 10 in sorted order"""
+    """path -> id; the nine state files have fixed ids, the rest are numbered from 10 in sorted order.
+    Content-addressed names (a digest of absolute paths, different in every scratch slot) are ordered by kind and
+    first appearance in the traces, so that the numbering is the same on every run."""
 
-    def __init__(self, paths: T.Iterable[str]):
+    def __init__(self, paths: T.Iterable[str], seq: T.Sequence[str] = ()):
         self.ids = dict(FIXED_IDS)
+        first = {}
+        for i, q in enumerate(seq):
+            first.setdefault(q, i)
+
+        def key(q: str):
+            c = file_class(q)
+            if '<digest>' in c:
+                return (c, first.get(q, 1 << 30), '')
+            return (c, 0, q)
         n = 10
-        for p in sorted(set(paths)):
+        for p in sorted(set(paths), key=key):
             if p not in self.ids:
                 self.ids[p] = n
                 n += 1
@@ -329,6 +342,16 @@ class Interner:
         if p not in self.ids:
             self.ids[p] = max(self.ids.values()) + 1
         return self.ids[p]
+
+
+def path_seq(raws: T.Iterable[T.List[Raw]]) -> T.List[str]:
+    out = []
+    for raw in raws:
+        for k, p, x in raw:
+            out.append(p)
+            if k in ('replace', 'rename', 'copyfile'):
+                out.append(x)
+    return out
 
 
 def paths_of(raw: T.Iterable[Raw]) -> T.Set[str]:
@@ -575,15 +598,15 @@ def referenced(bd: str, rel: str) -> bool:
 
 
 def consumer_commands(bd: str, tmpdir: str) -> T.List[T.Tuple[str, int, str]]:
-    """the consuming commands themselves: `meson test --list`, `meson introspect --all`, `meson configure`"""
+    """the consuming commands themselves: `meson test --list`, `meson introspect --all`, `meson configure`;
+    -> [(command, exit status, output tail)]"""
     m = [sys.executable, os.path.join(common.REPO, 'meson.py')]
     out = []
     for name, argv in (('test --list', m + ['test', '--list', '--no-rebuild', '-C', bd]),
                        ('introspect --all', m + ['introspect', '--all', bd]),
                        ('configure', m + ['configure', bd])):
         rc, o = run_proc(argv, meson_env(tmpdir))
-        if rc != 0:
-            out.append((name, rc, o[-300:]))
+        out.append((name, rc, o[-300:]))
     return out
 
 
@@ -765,7 +788,7 @@ def record_refs(slot: Slot, sc: Scn, wset: T.Sequence[str] = ()) -> dict:
     """artefacts of an uninterrupted world: the follow-up setup run (a) on the directory as it was before the command
     and (b) on the directory after the command got through (for a command made to fail from outside — no ninja,
     failing postconf script — after the same command line got through without that)"""
-    refs: T.Dict[str, T.Optional[T.Dict[str, str]]] = {'old': None, 'new': None}
+    refs: T.Dict[str, T.Any] = {'old': None, 'new': None}
     slot.restore(sc.hist, sc.backend)
     if os.path.exists(os.path.join(slot.bd, 'meson-private', 'coredata.dat')):
         rc, _o = run_proc(meson_argv('reconfigure', [], slot.bd, sc.backend, proj_of(sc.hist)), meson_env(slot.tmp))
@@ -778,6 +801,7 @@ def record_refs(slot: Slot, sc: Scn, wset: T.Sequence[str] = ()) -> dict:
         rc, _o = run_proc(meson_argv('reconfigure', [], slot.bd, sc.backend, proj_of(sc.hist)), meson_env(slot.tmp))
         if rc == 0:
             refs['new'] = artefacts(slot.bd, wset)[0]
+    refs['consumers'] = {n: rc_ for n, rc_, _t in consumer_commands(slot.bd, slot.tmp)} if refs['new'] or refs['old'] else {}
     slot.clean_tmp()
     return refs
 
@@ -808,14 +832,19 @@ def scenario_model_inputs(rec: dict) -> T.Tuple[Interner, T.Dict[str, str], T.Li
     extra_paths: T.Set[str] = set()
     for tr_ in rec.get('torn_recoveries', {}).values():
         extra_paths |= paths_of(tr_)
-    I = Interner(set(st0) | paths_of(raw) | paths_of(rec.get('recovery_raw', [])) | extra_paths)
+    torn = [rec.get('torn_recoveries', {})[q] for q in sorted(rec.get('torn_recoveries', {}), key=file_class)]
+    I = Interner(set(st0) | paths_of(raw) | paths_of(rec.get('recovery_raw', [])) | extra_paths,
+                 path_seq([raw, rec.get('recovery_raw', [])] + torn) + sorted(st0))
     effs, start = coalesce(raw)
     return I, st0, effs, start
 
 
 def gen_tables(ctx: Ctx) -> None:
     """record every scenario on the real code and emit the traces as Lean data"""
+    import time as _t
+    t0 = _t.time()
     record_all(ALL_SCENARIOS)
+    ctx.extra['seconds_recording_traces'] = round(_t.time() - t0, 1)
     lines = [
         '/- GENERATED by harness/c09.py from the real meson commands on every run — do not edit.',
         '   One scenario per (command, directory history, backend): the initial directory and the recorded',
@@ -982,7 +1011,7 @@ def choose_points(ctx: Ctx, raw: T.List[Raw], extra: T.Iterable[T.Tuple[int, str
     """(raw index, mode): 'b' = killed right before raw effect k, 't' = killed inside it"""
     effs, start = coalesce(raw)
     pts: T.Set[T.Tuple[int, str]] = set(extra)
-    stride = (3 if sparse else 1) if ctx.deep else (SPARSE_IN_QUICK if sparse else 5)
+    stride = (3 if sparse else 1) if ctx.deep else (SPARSE_IN_QUICK if sparse else 7)
     off = ctx.rng.randrange(stride)
     n = len(raw)
     seen_kinds: T.Set[str] = set()
@@ -1079,8 +1108,11 @@ def oracle(ctx: Ctx, rec: dict, r: dict) -> None:
                       f'after killing `meson {sc.cmd}` the follow-up setup succeeds but {file_class(f)} stays unreadable '
                       f'for its consumer ({err})', case)
         return
-    if r.get('consumers_failed'):
-        name, crc, tail = r['consumers_failed'][0]
+    ref_rc = (rec.get('refs') or {}).get('consumers', {})
+    failed = [(n, c, t) for n, c, t in r.get('consumers_failed', []) if c != ref_rc.get(n, 0)]
+    if failed:
+        name, crc, tail = failed[0]
+        case['exit_status_on_uninterrupted_directory'] = ref_rc.get(name, 0)
         case['consumer'] = {'command': name, 'rc': crc, 'output_tail': tail}
         ctx.violation(f'{sc.cmd}:consumer-fails-after-recovery:{name.split()[0]}',
                       f'after killing `meson {sc.cmd}` and recovering, `meson {name}` fails', case)
@@ -1373,12 +1405,15 @@ def run(ctx: Ctx) -> None:
         '(with the original arguments when the killed command was the first setup)',
         'files under meson-logs/ are not state and are not crash points',
     ]
+    import time as _t
+    t0 = _t.time()
     try:
         scenarios = ALL_SCENARIOS if ctx.deep else QUICK_SCENARIOS
         if os.environ.get('C09_SCN'):
             scenarios = [x for x in ALL_SCENARIOS if x.name in os.environ['C09_SCN'].split(',')]
         run_scenarios(ctx, scenarios)
         report_writers(ctx)
+        ctx.extra['seconds_kill_and_recover'] = round(_t.time() - t0, 1)
         ctx.exhaustive = bool(ctx.deep)
         ctx.extra['scenarios'] = [s.name for s in scenarios]
         ctx.extra['traces_validated_against_impl'] = len(scenarios)
